@@ -164,6 +164,13 @@ type VC struct {
 	nCalls   int
 	usedCon  map[string]bool
 	uncontracted map[string]bool
+	nalloc       string
+	nallocOut    map[*ssa.BasicBlock]string
+	allocSites   []string
+	retNalloc    []string
+	nfail        string
+	nfailOut     map[*ssa.BasicBlock]string
+	retNfail     []string
 	nEmb         int
 	havocked bool
 	mergedResults []SVal
